@@ -86,8 +86,11 @@ class GenericResolver(Generic[K, M]):
         if not hasattr(tp, "__orig_bases__"):
             return members_storage
 
+        # a plain subclass of a generic class inherits ``__orig_bases__`` of its parent,
+        # the type variables of such a class are bound by its own bases
+        orig_bases = tp.__orig_bases__ if "__orig_bases__" in vars(tp) else tp.__bases__
         bases_members: dict[K, TypeHint] = {}
-        for base in reversed(tp.__orig_bases__):
+        for base in reversed(orig_bases):
             bases_members.update(self.get_resolved_members(base).members)
 
         return replace(
